@@ -544,6 +544,55 @@ pub fn run(cfg: &Cfg, rep: &mut Report, mode: &Mode2) {
             }
         }
     }
+    // operator x operand-type family (see optyping.rs): whatever the checker accepts is called with every
+    // combination of member values
+    for (idx, case) in crate::optyping::cases().iter().enumerate() {
+        if !cfg.owns(idx as u64) {
+            continue;
+        }
+        if idx % 64 == 0 {
+            cfg.checkpoint(ctx.rep);
+        }
+        let kind = case.label.split(':').next().unwrap_or("");
+        let m = run_text(&format!("{} f", case.decl), FUEL);
+        if matches!(m.outcome, Outcome::Rejected(..)) {
+            ctx.rep.count(&format!("optyping:{kind}:rejected"));
+            continue;
+        }
+        ctx.rep.count(&format!("optyping:{kind}:accepted"));
+        ctx.rep.shape("constructs", &format!("optyping:{}", case.label));
+        let mut texts: Vec<&str> = case.calls.iter().map(|c| c.as_str()).collect();
+        let alone = format!("{} f", case.decl);
+        texts.push(&alone);
+        for text in texts {
+            let m = run_text(text, FUEL);
+            ctx.rep.distinct_case(text);
+            for (key, what) in ctx.absorb("optyping", text, &m) {
+                if ctx.want(&key) {
+                    ctx.emit(&key, &what, text);
+                } else {
+                    ctx.rep.count(&format!("further:{}", truncate(&key, 80)));
+                }
+            }
+        }
+    }
+    for (idx, text) in crate::optyping::const_union_programs().iter().enumerate() {
+        if !cfg.owns(idx as u64) {
+            continue;
+        }
+        let m = run_text(text, FUEL);
+        if matches!(m.outcome, Outcome::Rejected(..)) {
+            ctx.rep.count("optyping:const-union:rejected");
+            continue;
+        }
+        for (key, what) in ctx.absorb("optyping-const", text, &m) {
+            if ctx.want(&key) {
+                ctx.emit(&key, &what, text);
+            } else {
+                ctx.rep.count(&format!("further:{}", truncate(&key, 80)));
+            }
+        }
+    }
     for i in 0..n {
         if i % 8 == 0 {
             if deadline.over() {
